@@ -245,3 +245,65 @@ def get_num_samples(c):
     id_rule(c, u, n, E)
     c.ensures(lambda: z3.Implies(c.result == 0, c.new.get(outp) == h.arr(h.get(self_, "num_samples"))[u]), "value")
     c.assigns(outp)
+
+
+# --- roots and sample status (C01 derived views: the roots are the children of the virtual root) ---------------------
+
+@contract("trees.c", "tsk_tree_is_sample", ["self", "u"])
+def tree_is_sample(c):
+    self_, h, E, n, par = pre(c, need_time=True)
+    u = c.arg("u")
+    T = TC(h, h.get(h.get(self_, "tree_sequence"), "tables"))
+    fl = T.nodes.col("flags")
+    c.ensures(lambda: (c.result != 0) == z3.And(0 <= u, u < n, flag(fl[u], E.TSK_NODE_IS_SAMPLE)),
+              "a_node_of_the_tables_with_the_sample_bit")
+    c.assigns()
+
+
+@contract("trees.c", "tsk_tree_get_left_root", ["self"])
+def get_left_root(c):
+    self_, h, E, n, par = pre(c)
+    c.ensures(lambda: c.result == h.arr(h.get(self_, "left_child"))[n], "first_child_of_the_virtual_root")
+    c.assigns()
+
+
+@contract("trees.c", "tsk_tree_get_right_root", ["self"])
+def get_right_root(c):
+    self_, h, E, n, par = pre(c)
+    c.ensures(lambda: c.result == h.arr(h.get(self_, "right_child"))[n], "last_child_of_the_virtual_root")
+    c.assigns()
+
+
+@contract("trees.c", "tsk_tree_get_num_roots", ["self"])
+def get_num_roots(c):
+    self_, h, E, n, par = pre(c)
+    nc = h.arr(h.get(self_, "num_children"))
+    c.requires(nc[n] >= 0, "child_counts_are_counts")
+    c.ensures(lambda: c.result == nc[n], "number_of_children_of_the_virtual_root")
+    c.assigns()
+
+
+def _walk_to_root(c, cur):
+    self_, h, E, n, par = pre(c)
+    u = c.arg("u")
+    c.requires(z3.And(0 <= u, u <= n), "checked_id")
+    c.requires(depth_axioms(h, self_), "ghost_depth")
+    # the walk stays on ancestors-or-self of u: the node reached is gdepth(u) - gdepth(cur) steps above u
+    c.loop(0).invariant(lambda s: z3.And(0 <= cur(s), cur(s) <= n,
+                                         z3.Implies(u == n, cur(s) == n),
+                                         z3.Implies(par[u] == -1, cur(s) == u),
+                                         z3.Implies(u < n, z3.And(cur(s) < n, gdepth(cur(s)) <= gdepth(u)))))
+    c.ensures(lambda: z3.And(0 <= c.result, c.result <= n, par[c.result] == -1), "a_node_without_parent")
+    c.ensures(lambda: z3.Implies(par[u] == -1, c.result == u), "a_root_is_its_own_root")
+    c.ensures(lambda: z3.Implies(u < n, z3.And(c.result < n, gdepth(c.result) == 0)), "depth_zero_ancestor")
+    c.assigns()
+
+
+@contract("trees.c", "tsk_tree_get_node_root", ["self", "u"])
+def get_node_root(c):
+    _walk_to_root(c, lambda s: s.u)
+
+
+@contract("trees.c", "tsk_tree_node_root", ["self", "u"])
+def node_root(c):
+    _walk_to_root(c, lambda s: s.local("v"))
